@@ -156,10 +156,16 @@ func verifyHashRuleSliceInfos(locations []int, slices []string) (map[int]int, er
 		return nil, errors.ErrLocationsCount
 	}
 	for i := 0; i < len(locations); i++ {
+		if locations[i] < 0 {
+			return nil, fmt.Errorf("locations must not be negative, slice: %s, location: %d", slices[i], locations[i])
+		}
 		for j := 0; j < locations[i]; j++ {
 			tableToSlice[j+sumTables] = i
 		}
 		sumTables += locations[i]
+	}
+	if sumTables == 0 {
+		return nil, fmt.Errorf("locations must contain at least one table")
 	}
 	return tableToSlice, nil
 }
@@ -240,6 +246,15 @@ func verifyGlobalTableRuleSliceInfos(locations []int, slices []string, databases
 	tableToSlice, err := verifyHashRuleSliceInfos(locations, slices)
 	if err != nil {
 		return err
+	}
+
+	// a global table is routed by the namespace slice list, so every slice can only be listed once
+	for i := range slices {
+		for j := 0; j < i; j++ {
+			if slices[j] == slices[i] {
+				return fmt.Errorf("global table slice duped: %s", slices[i])
+			}
+		}
 	}
 
 	if len(databases) != 0 {
@@ -404,6 +419,9 @@ func verifyMycatPartitionPaddingModShard(padFromStr, padLengthStr, modBeginStr, 
 	}
 	if padLength < (modEnd - modBegin) {
 		return fmt.Errorf("invalid padding mod, padLength is less than modBegin - modEnd: %d, %d, %d", padLength, modBegin, modEnd)
+	}
+	if padLength < modEnd {
+		return fmt.Errorf("invalid padding mod, padLength is less than modEnd: %d, %d", padLength, modEnd)
 	}
 	return nil
 }
